@@ -338,6 +338,9 @@ func c10Dec(c *fw.Ctx, i int) {
 			big := r.Chance(1, 400) // an aggregation packet longer than 64 KiB
 			for q := 0; q < k; q++ {
 				u := gen.H264Unit(r, r.Range(1, 23), r.Pick(2, 3, r.Range(1, 40)))
+				if r.Chance(1, 6) {
+					u = []byte{byte(r.Intn(4))<<5 | byte(r.Pick(10, 11, 9, 1))} // a header-only NAL unit (end of sequence / end of stream)
+				}
 				if big {
 					u = gen.H264Unit(r, r.Range(1, 23), r.Pick(20000, 40000, 65535))
 				}
